@@ -7,7 +7,8 @@ dynamically typed).
   d11b.call <fname> (<arg>*)
 
 <fname> is a name of `D11b.table` (number / bool functions, `Stdlib/d11bFuncs.lean`; no environment)
-or of `D11b.collTable` (collection functions of `Stdlib.byName`, run under `modelEnv` like `std.callm`).
+or of `D11b.collTable` (collection functions of `Stdlib.byName`, run under `modelEnv` like `std.callm`;
+no `refineUnmodelled` escape: `refineNonNull` is PROVED to accept every result of these functions).
 Answer: `ok <val>` | `err` | `panicerr` | `panic` | `unmodelled`.
 -/
 import Driver.HStdlib
@@ -25,7 +26,8 @@ def handleD11b : Handler := fun op args =>
       if !(D11b.collTable.any fun e => e.1 == name) then none
       else
         let f ← byName name
-        if !modelEnvCovers as then pure "unmodelled"
-        else if HStdlib.refineUnmodelled f modelEnv as then pure "unmodelled"
+        -- only `reverse` (of a set whose element type is not primitive) consults the environment: the
+        -- byte order of two hash strings, which `modelEnv` computes for strings inside its fragment
+        if name == "reverse" && !modelEnvCovers as then pure "unmodelled"
         else pure (HStdlib.outStr (fun v => toString v.toSexp) (f.call modelEnv as))
   | _, _ => none
